@@ -686,33 +686,41 @@ structure AttrNode where
 
 def startsWithXsi (n : String) : Bool := n.startsWith ("{" ++ xsiNs ++ "}")
 
+/-- the `xsd_type` whose attribute uses are consulted (xpath_nodes.py:1114-1117):
+`self.xsd_type` when there is no declaration or an `xsi:type` attribute, else `xsd_element.type` -/
+def attrOwnerType (a : Ann) (attrs : List (String × String)) (xt : Ty) : Ty :=
+  match a.xsdElem with
+  | none => xt
+  | some d => if (attrGet attrs xsiType).isSome then xt else d.type
+
+/-- the attribute nodes for an element whose attribute uses come from type `ty` (xpath_nodes.py:1119-1142) -/
+def attrNodesFor (s : Schema) (ty : Ty) (attrs : List (String × String)) : List AttrNode :=
+  let plain := attrs.map fun (n, v) => (⟨n, v, none, false⟩ : AttrNode)
+  match ty with
+  | .simple _ => plain                            -- no `attributes` attribute
+  | .complex id =>
+    match s.ctype? id with
+    | none => plain
+    | some ct =>
+      let typed := attrs.map fun (n, v) =>
+        let t0 : Option SType := if startsWithXsi n then some (.builtin .anyAtomicType) else none
+        let t1 := match ct.attrs.find? (·.name == n) with
+          | some d => some d.type
+          | none => t0
+        (⟨n, v, t1, false⟩ : AttrNode)
+      -- "Add missing attributes with a default value, at the same position of the last attribute"
+      let dflt := ct.attrs.filterMap fun d =>
+        match d.default with
+        | some v => if (attrGet attrs d.name).isNone then some (⟨d.name, v, some d.type, true⟩ : AttrNode) else none
+        | none => none
+      typed ++ dflt
+
 /-- `EtreeElementNode.attributes` (xpath_nodes.py:1098-1144) for a fully valid schema; attribute
 wildcards are not modelled -/
 def attrNodes (s : Schema) (a : Ann) (attrs : List (String × String)) : List AttrNode :=
-  let plain := attrs.map fun (n, v) => (⟨n, v, none, false⟩ : AttrNode)
   match a.xsdType with
-  | none => plain
-  | some xt =>
-    let ty : Ty := match a.xsdElem with
-      | none => xt
-      | some d => if (attrGet attrs xsiType).isSome then xt else d.type
-    match ty with
-    | .simple _ => plain                            -- no `attributes` attribute
-    | .complex id =>
-      match s.ctype? id with
-      | none => plain
-      | some ct =>
-        let typed := attrs.map fun (n, v) =>
-          let t0 : Option SType := if startsWithXsi n then some (.builtin .anyAtomicType) else none
-          let t1 := match ct.attrs.find? (·.name == n) with
-            | some d => some d.type
-            | none => t0
-          (⟨n, v, t1, false⟩ : AttrNode)
-        let dflt := ct.attrs.filterMap fun d =>
-          match d.default with
-          | some v => if (attrGet attrs d.name).isNone then some (⟨d.name, v, some d.type, true⟩ : AttrNode) else none
-          | none => none
-        typed ++ dflt
+  | none => attrs.map fun (n, v) => (⟨n, v, none, false⟩ : AttrNode)
+  | some xt => attrNodesFor s (attrOwnerType a attrs xt) attrs
 
 /-- `AttributeNode.type_name` -/
 def AttrNode.typeName (a : AttrNode) : Option String :=
